@@ -9,7 +9,7 @@ ScriptDef == CASE Scenario = "disable_enable" -> <<"disable", "enable">>
                [] Scenario = "stop_only" -> <<"stop">>
                [] OTHER -> <<"enable", "disable", "enable">>
 \* print every complete schedule with the model's prediction
-Emit == Done => PrintT(<<"CASE", ToJson([script |-> Script, sched |-> sched, p1 |-> p1, lost |-> LostKick, died |-> died])>>)
+Emit == Done => PrintT(<<"CASE", ToJson([script |-> Script, sched |-> sched, wfree |-> wfree, p1 |-> p1, lost |-> LostKick, died |-> died])>>)
 \* the property on the model (expected to be refuted for the present design: see DESIGN C12)
 P1 == ~p1
 P2 == ~LostKick
